@@ -137,8 +137,23 @@ def large_fit_case(draw):
     return {"spec": s, "mlcl": None, "dseed": draw(gens.seeds)}
 
 
+def _dyn_case():
+    from .c10 import dynamic_long_case
+    return dynamic_long_case()
+
+
+def _dyn_oracle(case):
+    """the affinity a dynamic path trains and validates with is the named kernel / metric of the features selected when the
+    step began (shared with C10)"""
+    from .c10 import oracle_path
+    out = oracle_path(case)
+    out["nontrivial"] = bool(out.get("counts", {}).get("epochs_on_reduced_selection", 0) > 0)
+    return out
+
+
 def subs():
-    return [Sub("fit_large_n", large_fit_case(), oracle_fit, 16, 300, "f-divergence fits on 1030-2300 samples (blocked gradient code)")] + _subs()
+    return [Sub("fit_large_n", large_fit_case(), oracle_fit, 16, 300, "f-divergence fits on 1030-2300 samples (blocked gradient code)"),
+            Sub("path_dynamic_affinity", _dyn_case(), _dyn_oracle, 12, 400, "dynamic paths: the batch objective uses the affinity of the currently selected features")] + _subs()
 
 
 def _subs():
